@@ -10,3 +10,7 @@ ASSUMPTIONS = ["A-PY, A-TYPES, A-LOOP, A-CALLBACK", "the connection's API method
 
 def targets(eng):
     return client.targets_for(eng, ["lifecycle", "gates"], ["C19"])
+
+
+# built-in mutants of the real source text for the thorough tier's self-check (each must be refuted by a named obligation)
+MUTANTS = [('on-stop-keeps-connection', 'aioesphomeapi/client.py', '        # Hook into on_stop handler to clear connection when stopped\n        self._connection = None', '        # Hook into on_stop handler to clear connection when stopped')]
